@@ -10,7 +10,7 @@ import (
 
 func init() {
 	register(&propDef{
-		ID: "C11",
+		ID:          "C11",
 		Explanation: "Decides, for templ.ComponentHandler (go/cfg dominance and reachability, object identity through go/types): R1 the buffered path renders into the pooled byte buffer, never into the ResponseWriter; R2 every effect on the ResponseWriter (Header, WriteHeader, Write, http.Error, delegation to the error handler) is dominated by the Render call; R3 the effects inside the `err != nil` branch are the only ones reachable when rendering failed — that branch returns on every path and no success effect is reachable from an error effect; R4 the success body is Bytes() of that same buffer, written exactly once, after the status; R5 ServeHTTP takes the buffered path unless StreamResponse is set; the pooled buffer is released only by a defer (no use after release). NOT decided: what a configured error handler itself writes.",
 		Assumptions: []string{"Component.Render writes only to the writer it is given"},
 		Trusted:     []string{"go/types", "x/tools go/packages, go/cfg"},
